@@ -2274,7 +2274,7 @@ class EEA:
             if m_ is not None and not m_.is_abstract():
                 sub_ = self.escapes(Frame(self.I.make_callee(m_, c_), fr.V))
                 return self.merge(out, self._through(sub_, fr))
-        if fullname and fullname.endswith(".get_protocol") and fullname.startswith(PKG) and self._validated_version_read(e, fr):
+        if ((fullname and fullname.endswith(".get_protocol") and fullname.startswith(PKG)) or (fullname is None and isinstance(fn, ast.Name) and fn.id == "get_protocol")) and self._validated_version_read(e, fr):
             self.discharged.append({"site": self.site(fr, e, "call").loc(), "what": norm(e), "by": "the stored version read here was accepted by get_protocol (a cached, deterministic lookup) before every store into that attribute: the same call cannot fail now"})
             return out
         targets = I.resolve_call(e, fr, facts=st.facts)
@@ -2373,7 +2373,7 @@ class EEA:
                     return False
                 g = g or _CFG(f.node)
                 snodes = g.nodes_where(lambda x, stt=stt: x.contains(stt))
-                calls = [c for c in self.I.own_nodes(f) if isinstance(c, ast.Call) and (self.prog.call_fact(f.module, c) or ("",))[0] and (self.prog.call_fact(f.module, c) or ("",))[0].endswith(".get_protocol") and len(c.args) == 1 and isinstance(c.args[0], ast.Name) and c.args[0].id == v.id]
+                calls = [c for c in self.I.own_nodes(f) if isinstance(c, ast.Call) and (((self.prog.call_fact(f.module, c) or ("",))[0] or "").endswith(".get_protocol") or (isinstance(c.func, ast.Name) and c.func.id == "get_protocol")) and len(c.args) == 1 and isinstance(c.args[0], ast.Name) and c.args[0].id == v.id]
                 ok = False
                 for c in calls:
                     cn_ = g.nodes_where(lambda x, c=c: x.contains(c))
